@@ -270,7 +270,7 @@ func main() {
 			t.Par(len(hists), func(hi int) {
 				h := hists[hi]
 				for _, client := range []bool{false, true} {
-					for _, policy := range []string{"non-final", "first-frames", "every-second-call"} {
+					for _, policy := range []string{"non-final", "first-frames", "every-second-call", "never, but answers with a header it builds itself"} {
 						client, policy := client, policy
 						t.Do(func() string {
 							return fmt.Sprintf("client=%v buffer=%d extension refuses %s: %v; Flush", client, S, policy, h)
@@ -284,6 +284,10 @@ func main() {
 							calls := 0
 							w.SetExtensions(wsutil.SendExtensionFunc(func(hd ws.Header) (ws.Header, error) {
 								calls++
+								if strings.HasPrefix(policy, "never") {
+									// what the extension owns is the reserved bits: it copies what it knows about
+									return ws.Header{Fin: hd.Fin, Rsv: hd.Rsv, OpCode: hd.OpCode, Length: hd.Length}, nil
+								}
 								switch {
 								case policy == "non-final" && !hd.Fin, policy == "first-frames" && hd.OpCode != ws.OpContinuation, policy == "every-second-call" && calls%2 == 0:
 									return hd, errRefused
@@ -318,6 +322,9 @@ func main() {
 								var wire []byte
 								for _, f := range frames {
 									wire = append(wire, f.Payload...)
+									if f.H.Masked != client {
+										return explore.Failf("frame-masking:with-an-extension-in-the-way", "after call %d %v: frame masked=%v from a writer with client=%v", i, o, f.H.Masked, client)
+									}
 								}
 								if len(wire) > len(accepted) || !bytes.Equal(wire, accepted[:len(wire)]) {
 									return explore.Failf("bytes-on-the-wire-that-no-call-reported-as-accepted", "after call %d %v (n=%d err=%v): wire payload %x, accepted %x", i, o, n, err, wire, accepted)
